@@ -184,7 +184,7 @@ fn run_case(rep: &mut Report, args: &Args, case: u64, rt: &tokio::runtime::Runti
         let msg = validator::NetAddress {
             addr: laddr,
             version: [0u64, 1, 2, 3, u64::MAX - 1, u64::MAX][rng.gen_range(0..6)],
-            timestamp: time::UNIX_EPOCH + time::Duration::seconds([0i64, 1, 2, 1_000_000][rng.gen_range(0..4)]),
+            timestamp: time::UNIX_EPOCH + time::Duration::seconds([0i64, 1, 2, 1_000_000][rng.gen_range(0..4)]) + time::Duration::milliseconds([0i64, 100, 900][rng.gen_range(0..3)]),
         };
         let it = match rng.gen_range(0..8) {
             0 => {
@@ -420,7 +420,19 @@ fn run_case(rep: &mut Report, args: &Args, case: u64, rt: &tokio::runtime::Runti
             _ => None,
         }) == Some(true);
         let full_announced = log.iter().any(|(_, e)| matches!(e, Ev::Announced { peer: 0, last: Some(l), .. } if *l == last));
-        if honest_up && full_announced && end.saturating_sub(last_req) > 20_000 {
+        // the lowest missing block has to be asked for: a node that keeps asking the honest peer for higher blocks but, for 30 s,
+        // nobody for exactly the lowest block it misses has lost that request
+        let missing = stored_next.load(Ordering::SeqCst);
+        let asked_recently = upto.iter().any(|(t, e)| matches!(e, Ev::GetBlock { n, .. } if *n == missing) && end.saturating_sub(*t) < 30_000);
+        // (the node is demonstrably alive and fetching: it asked the honest peer for higher blocks during those 30 s)
+        let higher_from_honest = upto.iter().filter(|(t, e)| matches!(e, Ev::GetBlock { peer: 0, n, .. } if *n > missing) && end.saturating_sub(*t) < 30_000).count();
+        if full_announced && higher_from_honest >= 5 && !asked_recently && prop == "C19" {
+            rep.violation(
+                "lowest-missing-block-not-requested||node".to_string(),
+                format!("block {missing} is the lowest block the node misses; during the last 30 s it asked the honest peer (announcing [{first}, {last}]) for {higher_from_honest} higher blocks, but nobody for block {missing}"),
+                replay.clone(),
+            );
+        } else if honest_up && full_announced && end.saturating_sub(last_req) > 20_000 {
             if prop == "C19" {
                 rep.violation(
                     "request-lost||node".to_string(),
